@@ -1,6 +1,7 @@
 package main
 
 import (
+	"strings"
 	"go/ast"
 	"go/token"
 	"go/types"
@@ -299,6 +300,33 @@ func runC12(c *Ctx) {
 		}
 		w = hf.MustPrecede(hf.CallTo(ma.Obj), nil, invoke)
 		c.Check(w == nil, "activity≺handler", "activity is marked before the handler runs (a long handler is not mistaken for idleness at its start)", c.P.Pos(hr.Decl.Pos()), hf.describe(w))
+	})
+
+	c.Rule("heap-deadline-fresh", func() {
+		// An entry's deadline is recomputed from its latest activity whenever it is (re)queued on the deadline heap:
+		// a paused-and-resumed or re-registered entry must not carry the deadline it had before.
+		push := c.ExtFunc("container/heap", "Push")
+		refresh := c.FuncObj("actor", "passivationEntry.refreshDeadline")
+		n := 0
+		seen := map[*types.Func]bool{}
+		for _, u := range c.UsesOf(push) {
+			if u.Call == nil || u.EnclObj == nil || seen[u.EnclObj] {
+				continue
+			}
+			if !strings.Contains(funcName(u.EnclObj), "passivationManager") {
+				continue
+			}
+			seen[u.EnclObj] = true
+			fn := c.fnOfObj(u.EnclObj)
+			f := c.NewFlow(fn)
+			isPush := f.CallTo(push)
+			n += len(f.FindOnce(isPush))
+			w := f.MustPrecede(f.CallTo(refresh), nil, isPush)
+			c.Check(w == nil, "push⇒refreshed@"+funcName(u.EnclObj), "an entry is queued on the deadline heap only after its deadline was recomputed from the latest activity", u.Where(c.P), f.describe(w))
+		}
+		if n < 3 {
+			c.Undecided("push-sites", "heap push sites found", "-", "found "+itoa(n))
+		}
 	})
 
 	c.Rule("message-count", func() {
